@@ -499,14 +499,25 @@ type lazyWriter struct {
 func (lw *lazyWriter) Write(p []byte) (n int, err error) {
 	if lw.w == nil {
 		acquired := make(chan struct{})
+		failed := make(chan struct{})
 		go func() {
+			called := false
 			lw.withWriterFunc(func(w io.Writer) {
+				called = true
 				lw.w = w
 				close(acquired)
 				<-lw.done
 			})
+			if !called {
+				// no writer could be obtained (e.g. the connection is closed)
+				close(failed)
+			}
 		}()
-		<-acquired
+		select {
+		case <-acquired:
+		case <-failed:
+			return 0, xerrors.New("failed to acquire response writer")
+		}
 	}
 
 	return lw.w.Write(p)
